@@ -762,3 +762,244 @@ Proof.
   - unfold view_d, rows. fold rows. apply in_map_iff. eauto.
   - apply in_map_iff. exists r. split; auto. unfold dcell. rewrite (dget_in r k v); auto.
 Qed.
+
+(* ================= the exact behaviour: a route through pandas IS the widening (up to null/NaN) ================= *)
+Lemma cell_same_iff c c' : cell_pres false c c' = true <-> norm c = norm c'.
+Proof.
+  split; [|apply cell_pres_eq]. intros H. apply cell_pres_inv in H. destruct H as [H|[a [_ [_ [H _]]]]]; auto. discriminate.
+Qed.
+
+Lemma same_refl v : same v v = true.
+Proof. apply forall2b_refl. intros c _. unfold same_col. rewrite String.eqb_refl. apply forall2b_refl. intros. apply cell_pres_refl. Qed.
+
+Lemma forall2b_sym {A} (p : A -> A -> bool) l : forall l', (forall a b, p a b = true -> p b a = true) ->
+  forall2b p l l' = true -> forall2b p l' l = true.
+Proof.
+  induction l; intros [|b l'] H P; simpl in *; try discriminate; auto.
+  apply andb_true_iff in P. destruct P. rewrite H by auto. simpl. auto.
+Qed.
+
+Lemma same_col_sym c c' : same_col c c' = true -> same_col c' c = true.
+Proof.
+  unfold same_col. intros H. apply andb_true_iff in H. destruct H as [N P]. apply String.eqb_eq in N. rewrite N, String.eqb_refl. simpl.
+  apply forall2b_sym; auto. intros a b E. apply cell_same_iff. symmetry. apply cell_same_iff. auto.
+Qed.
+
+Lemma same_sym v v' : same v v' = true -> same v' v = true.
+Proof. apply forall2b_sym. apply same_col_sym. Qed.
+
+Lemma same_col_trans c1 c2 c3 : same_col c1 c2 = true -> same_col c2 c3 = true -> same_col c1 c3 = true.
+Proof.
+  unfold same_col. intros H1 H2. apply andb_true_iff in H1. apply andb_true_iff in H2. destruct H1 as [N1 P1], H2 as [N2 P2].
+  apply String.eqb_eq in N1. apply String.eqb_eq in N2. rewrite N1, N2, String.eqb_refl. simpl.
+  eapply forall2b_trans; [|exact P1|exact P2]. intros. eapply cell_pres_trans; eauto.
+Qed.
+
+Lemma same_trans v1 v2 v3 : same v1 v2 = true -> same v2 v3 = true -> same v1 v3 = true.
+Proof. unfold same. intros. eapply forall2b_trans; [|eassumption|eassumption]. intros. eapply same_col_trans; eauto. Qed.
+
+(* pres only looks at cells up to null/NaN *)
+Lemma col_pres_same_r c c' c'' : same_col c' c'' = true -> col_pres c c' = true -> col_pres c c'' = true.
+Proof.
+  unfold same_col, col_pres. intros S P. apply andb_true_iff in S. apply andb_true_iff in P. destruct S as [N1 S], P as [N2 P].
+  apply String.eqb_eq in N1. apply String.eqb_eq in N2. rewrite <- N1, N2, String.eqb_refl. simpl.
+  eapply forall2b_trans; [|exact P|exact S]. intros a b c0 _ H1 H2. apply cell_same_iff in H2.
+  apply cell_pres_inv in H1. destruct H1 as [E|[z [E1 [E2 [E3 E4]]]]].
+  - apply cell_pres_eq. congruence.
+  - rewrite E3. eapply cell_pres_widen; eauto. congruence.
+Qed.
+
+Lemma pres_same_r v v' v'' : same v' v'' = true -> pres v v' = true -> pres v v'' = true.
+Proof. unfold same, pres. intros S P. eapply forall2b_trans; [|exact P|exact S]. intros a b c _ H1 H2. eapply col_pres_same_r; eauto. Qed.
+
+Lemma pres_same_r_eq v v' v'' : same v' v'' = true -> pres v v' = pres v v''.
+Proof.
+  intros S. destruct (pres v v') eqn:E1, (pres v v'') eqn:E2; auto.
+  - rewrite (pres_same_r _ _ _ S E1) in E2. discriminate.
+  - rewrite (pres_same_r _ _ _ (same_sym _ _ S) E2) in E1. discriminate.
+Qed.
+
+Lemma same_pres v v' : same v v' = true -> pres v v' = true.
+Proof. intros S. eapply pres_same_r; eauto. apply pres_refl. Qed.
+
+(* widening respects "same" *)
+Lemma widen_cell_norm c c' : norm c = norm c' -> norm (widen_cell c) = norm (widen_cell c').
+Proof.
+  destruct c as [| |[]| |], c' as [| |[]| |]; simpl; intros E; try discriminate; auto; try congruence.
+  all: injection E as E; subst; reflexivity.
+Qed.
+
+Lemma same_widened v : forall v', same v v' = true -> same (widened_view v) (widened_view v') = true.
+Proof.
+  unfold same, widened_view. induction v as [|c v]; intros [|c' v'] H; simpl in *; try discriminate; auto.
+  apply andb_true_iff in H. destruct H as [H1 H2]. rewrite IHv by auto. rewrite andb_true_r.
+  unfold same_col in *. cbn [fst snd]. apply andb_true_iff in H1. destruct H1 as [N P]. rewrite N. simpl.
+  rewrite <- (cells_pres_nullable _ _ _ P). destruct (existsb is_null (snd c)); auto.
+  clear -P. revert P. generalize (snd c) (snd c'). induction l as [|a l]; intros [|b l'] P; simpl in *; try discriminate; auto.
+  apply andb_true_iff in P. destruct P as [P1 P2]. rewrite IHl by auto. rewrite andb_true_r.
+  apply cell_same_iff. apply widen_cell_norm. apply cell_same_iff. auto.
+Qed.
+
+Lemma same_shape v v' : same v v' = true -> shape v = shape v'.
+Proof. intros S. apply pres_shape. apply same_pres. auto. Qed.
+
+Lemma widened_shape v : shape (widened_view v) = shape v.
+Proof.
+  unfold shape, widened_view. rewrite map_map. apply map_ext. intros c. cbn [fst snd].
+  destruct (existsb is_null (snd c)); auto. rewrite map_length. reflexivity.
+Qed.
+
+(* ---------- Arrow -> pandas is the widening, up to null/NaN; the other three keep the view ---------- *)
+Lemma widen_noint cs : (forall c z, In c cs -> c <> VInt z) -> map widen_cell cs = cs.
+Proof.
+  intros H. rewrite <- (map_id cs) at 2. apply map_ext_in. intros c I. destruct c; auto. exfalso. eapply H; eauto.
+Qed.
+
+Lemma all_some_no_null {A} (f : option A -> cell) l :
+  (forall a, is_null (f (Some a)) = false) -> all_some l = true -> existsb is_null (map f l) = false.
+Proof. intros H. induction l as [|[a|] l]; simpl; try discriminate; auto. intros S. rewrite H. simpl. auto. Qed.
+
+Lemma a2p_col_same c :
+  forall2b (cell_pres false) (if existsb is_null (acol_cells c) then map widen_cell (acol_cells c) else acol_cells c)
+           (pcol_cells (a2p_col c)) = true.
+Proof.
+  assert (R : forall cs, forall2b (cell_pres false) cs cs = true) by (intros; apply forall2b_refl; intros; apply cell_pres_refl).
+  destruct c as [n|l|l|l|l]; cbn [a2p_col acol_cells].
+  - rewrite widen_noint. + destruct (existsb _ _); apply R. + intros c z I. apply repeat_spec in I. subst. discriminate.
+  - destruct (all_some l) eqn:S; cbn [pcol_cells].
+    + rewrite (all_some_no_null of_oint l) by auto. rewrite (all_some_cells of_oint VInt 0 l) by auto. apply R.
+    + rewrite (not_all_some_null of_oint l eq_refl S). rewrite !map_map. apply forall2b_map_map. intros [z|] _; [|reflexivity].
+      cbn [of_oint widen_cell]. apply cell_pres_refl.
+  - cbn [pcol_cells]. rewrite widen_noint.
+    + assert (forall2b (cell_pres false) (map of_ofloat l) (map VFloat (map (fun o => match o with Some f => f | None => S754_nan end) l)) = true).
+      { rewrite map_map. apply forall2b_map_map. intros [f|] _; [apply cell_pres_refl|reflexivity]. }
+      destruct (existsb _ _); auto.
+    + intros c z I. apply in_map_iff in I. destruct I as [[f|] [E _]]; subst; discriminate.
+  - cbn [pcol_cells]. rewrite widen_noint. + destruct (existsb _ _); apply R.
+    + intros c z I. apply in_map_iff in I. destruct I as [[f|] [E _]]; subst; discriminate.
+  - rewrite widen_noint.
+    + destruct (all_some l) eqn:S; cbn [pcol_cells].
+      * rewrite (all_some_cells of_obool VBool false l) by auto. destruct (existsb _ _); apply R.
+      * destruct (existsb _ _); apply R.
+    + intros c z I. apply in_map_iff in I. destruct I as [[f|] [E _]]; subst; discriminate.
+Qed.
+
+Lemma a2p_same t : same (widened_view (view_a t)) (view_p (a2p t)) = true.
+Proof.
+  rewrite view_p_a2p. unfold same, widened_view, view_a. rewrite map_map. apply forall2b_map_map. intros nc _.
+  unfold same_col. cbn [fst snd]. rewrite String.eqb_refl. simpl. apply a2p_col_same.
+Qed.
+
+Lemma p2a_same t : valid_p t = true -> same (view_p t) (view_a (p2a' t)) = true.
+Proof.
+  unfold valid_p. intros V. apply andb_true_iff in V. destruct V as [_ V3]. rewrite forallb_forall in V3.
+  unfold same, view_p, view_a, p2a'. rewrite map_map. apply forall2b_map_map. intros nc I. unfold same_col. cbn [fst snd].
+  rewrite String.eqb_refl. simpl. apply p2a_col_ok. auto.
+Qed.
+
+(* ---------- what a route does to the view, exactly (up to null/NaN): the widening iff it ends in pandas ---------- *)
+
+Lemma forward_same_l a b x : a <> b -> valid_of a x = true -> (b = FDict -> kf_empty (view_of x) = false) ->
+  valid_of b (conv a b x) = true /\ same (expected (to_pandas b) (view_of x)) (view_of (conv a b x)) = true.
+Proof.
+  intros NE V K. destruct a, b; try congruence; cbn [conv to_pandas fwk_eqb expected].
+  - destruct (step_d2a x V) as [V' W]. rewrite W. split; auto. apply same_refl.
+  - destruct (step_d2a x V) as [V' W]. destruct (step_a2p _ V') as [V'' _]. split; auto. rewrite <- W.
+    destruct (cv_d2a x) as [t|t|t|r]; simpl in V'; try discriminate. apply a2p_same.
+  - destruct (step_a2d x V (K eq_refl)) as [V' W]. rewrite W. split; auto. apply same_refl.
+  - destruct (step_a2p x V) as [V' _]. split; auto. destruct x as [t|t|t|r]; simpl in V; try discriminate. apply a2p_same.
+  - destruct (step_p2a x V) as [V' P].
+    assert (S : same (view_of x) (view_of (cv_p2a x)) = true).
+    { destruct x as [t|t|t|r]; simpl in V; try discriminate. destruct (p2a_ok t V) as [E _]. unfold cv_p2a. rewrite E. apply p2a_same. auto. }
+    assert (K' : kf_empty (view_of (cv_p2a x)) = false) by (rewrite <- (kf_empty_shape _ _ (same_shape _ _ S)); auto).
+    destruct (step_a2d _ V' K') as [V'' W]. rewrite W. auto.
+  - destruct (step_p2a x V) as [V' P]. split; auto.
+    destruct x as [t|t|t|r]; simpl in V; try discriminate. destruct (p2a_ok t V) as [E _]. unfold cv_p2a. rewrite E. apply p2a_same. auto.
+Qed.
+
+(* widening twice is widening once is not needed: every round trip contains exactly one Arrow -> pandas step *)
+Lemma roundtrip_same_l a b x : a <> b -> valid_of a x = true -> (b = FDict -> kf_empty (view_of x) = false) ->
+  valid_of a (conv b a (conv a b x)) = true /\
+  same (expected (uses_pandas a b) (view_of x)) (view_of (conv b a (conv a b x))) = true.
+Proof.
+  intros NE V K. destruct (forward_same_l a b x NE V K) as [V1 S1].
+  assert (K' : a = FDict -> kf_empty (view_of (conv a b x)) = false).
+  { intros E. subst a. rewrite <- (kf_empty_shape _ _ (same_shape _ _ S1)).
+    destruct (to_pandas b); cbn [expected]; [rewrite (kf_empty_shape _ _ (widened_shape _))|]; apply valid_dict_not_empty; auto. }
+  destruct (forward_same_l b a _ (not_eq_sym NE) V1 K') as [V2 S2]. split; auto.
+  destruct a, b; try congruence; cbn [to_pandas fwk_eqb expected uses_pandas orb] in *.
+  - eapply same_trans; eauto.
+  - eapply same_trans; eauto.
+  - eapply same_trans; eauto.
+  - eapply same_trans; eauto.
+  - eapply same_trans; [|exact S2]. apply same_widened. auto.
+  - eapply same_trans; [|exact S2]. apply same_widened. auto.
+Qed.
+
+(* ---------- when is the widened view "preserved"?  exactly outside the sharp loss domain ---------- *)
+Definition ints_ok (v : view) : bool := forallb (fun c => forallb cell_int64 (snd c)) v.
+
+Lemma cell_pres_widen_iff z : int64_ok z = true ->
+  (cell_pres true (VInt z) (widen_cell (VInt z)) = true <-> representable z = true).
+Proof.
+  intros I. cbn [widen_cell]. rewrite <- (z2f_exact_iff_l z I). split.
+  - intros H. apply cell_pres_inv in H. destruct H as [H|[a [E1 [_ [_ E4]]]]].
+    + exfalso. simpl in H. destruct (z2f z); discriminate.
+    + simpl in E1. injection E1 as E1. subst a. auto.
+  - intros F. eapply cell_pres_widen; [reflexivity| |exact F]. apply norm_float. eapply f2z_some_not_nan; eauto.
+Qed.
+
+Lemma cells_widen_iff cs : forallb cell_int64 cs = true ->
+  (forall2b (cell_pres true) cs (map widen_cell cs) = true <-> existsb lossy_int cs = false).
+Proof.
+  induction cs as [|c cs]; simpl; [tauto|]. intros I. apply andb_true_iff in I. destruct I as [I1 I2].
+  rewrite andb_true_iff, orb_false_iff, (IHcs I2).
+  assert (cell_pres true c (widen_cell c) = true <-> lossy_int c = false); [|tauto].
+  destruct c as [|z|f|s|b]; try (split; intros; [reflexivity|apply cell_pres_refl]).
+  rewrite (cell_pres_widen_iff z I1). cbn [lossy_int]. destruct (representable z); simpl; split; auto; discriminate.
+Qed.
+
+Lemma pres_widened_iff v : ints_ok v = true -> (pres v (widened_view v) = true <-> kf_widening_exact v = false).
+Proof.
+  unfold pres, widened_view, kf_widening_exact, ints_ok. induction v as [|c v]; simpl; [tauto|]. intros I.
+  apply andb_true_iff in I. destruct I as [I1 I2]. rewrite andb_true_iff, orb_false_iff, (IHv I2).
+  assert (col_pres c (fst c, if existsb is_null (snd c) then map widen_cell (snd c) else snd c) = true
+          <-> existsb is_null (snd c) && existsb lossy_int (snd c) = false); [|tauto].
+  unfold col_pres. cbn [fst snd]. rewrite String.eqb_refl. cbn [andb].
+  destruct (existsb is_null (snd c)) eqn:N; cbn [andb].
+  - apply cells_widen_iff. auto.
+  - split; auto. intros _. apply forall2b_refl. intros. apply cell_pres_refl.
+Qed.
+
+Lemma valid_ints_ok a x : valid_of a x = true -> ints_ok (view_of x) = true.
+Proof.
+  destruct a, x as [t|t|t|r]; simpl; try discriminate; intros V.
+  - (* dict *) destruct t as [|r0 rest]; auto. unfold valid_d in V. apply andb_true_iff in V. destruct V as [_ V].
+    unfold ints_ok. apply forallb_forall. intros c I. rewrite forallb_forall in V. apply typed_int64. auto.
+  - unfold valid_a in V. apply andb_true_iff in V. tauto.
+  - unfold valid_p in V. apply andb_true_iff in V. destruct V as [_ V]. unfold ints_ok, view_p. rewrite forallb_map'.
+    apply forallb_forall. intros nc I. rewrite forallb_forall in V. specialize (V nc I). cbn [snd].
+    destruct (snd nc) as [l|l|l|l|l]; unfold pcol_ok in V; auto. cbn [pcol_cells].
+    apply typed_int64 in V. rewrite forallb_int64_nan_to_null in V. auto.
+Qed.
+
+(* ---------- the round trip is preserved EXACTLY outside the sharp loss domain ---------- *)
+Lemma roundtrip_iff_l a b x : a <> b -> valid_of a x = true -> (b = FDict -> kf_empty (view_of x) = false) ->
+  (pres (view_of x) (view_of (conv b a (conv a b x))) = true <-> kf_route_exact a b (view_of x) = false).
+Proof.
+  intros NE V K. destruct (roundtrip_same_l a b x NE V K) as [_ S]. rewrite <- (pres_same_r_eq _ _ _ S).
+  unfold kf_route_exact.
+  assert (KE : fwk_eqb b FDict && kf_empty (view_of x) = false) by (destruct b; auto; simpl; auto).
+  rewrite KE, orb_false_r. destruct (uses_pandas a b); cbn [expected andb].
+  - apply pres_widened_iff. eapply valid_ints_ok; eauto.
+  - split; auto. intros _. apply pres_refl.
+Qed.
+
+Lemma forward_iff_l a b x : a <> b -> valid_of a x = true -> (b = FDict -> kf_empty (view_of x) = false) ->
+  (pres (view_of x) (view_of (conv a b x)) = true <-> (to_pandas b && kf_widening_exact (view_of x)) = false).
+Proof.
+  intros NE V K. destruct (forward_same_l a b x NE V K) as [_ S]. rewrite <- (pres_same_r_eq _ _ _ S).
+  destruct (to_pandas b); cbn [expected andb].
+  - apply pres_widened_iff. eapply valid_ints_ok; eauto.
+  - split; auto. intros _. apply pres_refl.
+Qed.
